@@ -340,13 +340,15 @@ def shrink(world_cls, cfg, ops, target, budget=400):
             if r:
                 cfg, best, progress = c2, r, True
                 break
-        for i in range(len(ops)):
+        i = 0
+        while i < len(ops):
             for o2 in world_cls.simplify_op(ops[i]):
                 cand = ops[:i] + [o2] + ops[i + 1:]
                 r = fails(cfg, cand)
                 if r:
                     ops, best, progress = r["ops"], r, True
                     break
+            i += 1
         if not progress:
             break
     best = dict(best)
